@@ -181,6 +181,31 @@ def check_edge_pairs(ctx):
              ("bezier_span_knots/curve_same", lambda: (crv(BSpline.Curve, P3, uniform), crv(BSpline.Curve, P3, uniform)), True),
              ("bezier_span_knots/surface_v", lambda: (srf(clamped), srf(uniform)), False),
              ("rationality_with_equal_arrays", lambda: (crv(BSpline.Curve, P3, clamped), crv(NURBS.Curve, P3, clamped)), False)]
+    # knot vectors from generate() given to two non-normalising curves, one knot of one curve then moved in place: the other curve
+    # keeps its knots and the two differ; and a surface whose two directions were given ONE list: a knot of u moved in place leaves v alone
+    from geomdl import knotvector as _kvm
+
+    def gen_pair():
+        a_ = BSpline.Curve(normalize_kv=False)
+        b_ = BSpline.Curve(normalize_kv=False)
+        for c_ in (a_, b_):
+            c_.degree = 2
+            c_.ctrlpts = [[float(i), float(i * i % 3)] for i in range(5)]
+            c_.knotvector = _kvm.generate(2, 5)
+        b_.knotvector[3] = 0.4
+        return a_, b_
+
+    def shared_dirs():
+        kv_ = [0.0, 0.0, 0.0, 0.5, 1.0, 1.0, 1.0]
+        s1_, s2_ = BSpline.Surface(), BSpline.Surface()
+        for s_, kvs in ((s1_, [kv_, kv_]), (s2_, [list(kv_), list(kv_)])):
+            s_.degree_u, s_.degree_v = 2, 2
+            s_.set_ctrlpts([[float(i), float(j), float((i * j) % 3)] for i in range(4) for j in range(4)], 4, 4)
+            s_.knotvector = kvs
+        s1_.knotvector_u[3] = 0.25
+        s2_.knotvector_u[3] = 0.25
+        return s1_, s2_
+    pairs += [("generated_knots_edited_in_place", gen_pair, False), ("one_list_for_both_directions", shared_dirs, True)]
     for label, mk, want in pairs:
         small = {"pair": label}
         tg = ["edge_pair", label]
